@@ -33,7 +33,7 @@ def opcodes():
 CALLS = ("CALL", "INLINE", "JCALL")
 BO = ("BO", "BNO", "UBO", "UBNO")
 INTERNAL = ("USE", "PHI", "UNSPEC")
-PROTOS = {0: ("i64(i64,d,blk:8)", 6, 6), 1: ("(i64,...)", 3, 6), 2: ("f,ld()", 4, 4), 3: ("(rblk:8,i32)", 4, 4)}
+PROTOS = {0: ("i64(i64,d,blk:8)", 6, 6), 1: ("(i64,...)", 2, 6), 2: ("f,ld()", 4, 4), 3: ("(rblk:8,i32)", 4, 4)}
 FRES = {0: ("()", 0), 1: ("(i64)", 1), 2: ("(f,d)", 2), 3: ("(u8,ld)", 2)}
 
 
